@@ -62,6 +62,12 @@ func runC15(c *Ctx) {
 			nEmpty++
 			emptyFn = calleeOf(vt)
 			r.Check(exitMustPass(fn, e, e0), "C15.shape.empty", c.ipos(e.Instr), "empty root returned exactly under len(data)==0")
+		case et.Is("nil") && leafInPlace(c, vt):
+			// the single leaf marshalled by Hash itself and hashed in place or by a helper that takes the bytes
+			nLeaf++
+			mOK := plainEdges(edgesMatching(b, "bin<==>(ext#1(call<(encoding.BinaryMarshaler).MarshalBinary>(load(iaddr(p1, 0)))), nil)"))
+			r.Check(exitMustPass(fn, e, e1) && exitMustPass(fn, e, n0) && exitMustPass(fn, e, mOK), "C15.shape.single-leaf", c.ipos(e.Instr), "leaf hash of data[0] returned exactly under len(data)==1, after MarshalBinary succeeded")
+			r.OK("C15.shape.leaf", c.ipos(e.Instr), "leaf = t.hash: Write([0x00]), Write(marshalled leaf), Sum(nil), only after MarshalBinary succeeded (decided on the expanded term)")
 		case matches("ext#0(call<*>(p0, load(iaddr(p1, 0))))", vt):
 			nLeaf++
 			leafFn = calleeOf(vt)
@@ -92,7 +98,11 @@ func runC15(c *Ctx) {
 			failL := plainEdges(edgesMatching(b, "bin<!=>("+patL+", nil)"))
 			failR := plainEdges(edgesMatching(b, "bin<!=>("+patR+", nil)"))
 			okProp := false
-			if _, okL := ana.Match(patL, et); okL {
+			mErr := "ext#1(call<(encoding.BinaryMarshaler).MarshalBinary>(load(iaddr(p1, 0))))"
+			if _, okM := ana.Match(mErr, et); okM {
+				// the single leaf's marshaling error, returned by Hash itself
+				okProp = exitMustPass(fn, e, plainEdges(edgesMatching(b, "bin<!=>("+mErr+", nil)"))) && exitMustPass(fn, e, e1)
+			} else if _, okL := ana.Match(patL, et); okL {
 				okProp = exitMustPass(fn, e, failL)
 			} else if _, okR := ana.Match(patR, et); okR {
 				okProp = exitMustPass(fn, e, failR)
@@ -267,4 +277,17 @@ func (c *Ctx) wordBits() int {
 		return 32
 	}
 	return 64
+}
+
+// leafInPlace: vt is SHA(0x00 ‖ MarshalBinary(data[0])) computed with the Hasher's hash — in Hash itself, or by a helper
+// that is handed the marshalled bytes (looked through by the matcher).
+func leafInPlace(c *Ctx, vt *ana.Term) bool {
+	hnew := "call<(crypto.Hash).New>(load(faddr<#0>(p0)))"
+	mb := "call<(encoding.BinaryMarshaler).MarshalBinary>(load(iaddr(p1, 0)))"
+	want := "call<(hash.Hash).Sum>(obj(" + hnew + ", call<(hash.Hash).Write>(self, slice(obj(alloc<[1]byte>, store(iaddr(self, 0), 0)), 0, none)), call<(hash.Hash).Write>(self, ext#0(" + mb + "))), nil)"
+	if matches("ext#0(call<*>(p0, load(iaddr(p1, 0))))", vt) {
+		return false // the usual form: the leaf routine marshals (decided below)
+	}
+	_, ok := ana.MatchX(c.P, want, vt)
+	return ok
 }
